@@ -227,7 +227,10 @@ def _register2(op, g):
             elif PY >= (3, 10):
                 ent["co_lines"] = [list(p) for p in c.co_lines()]
             codes.append(ent)
-        return {"pyc": tohex(hdr + body), "codes": codes, "magic": struct.unpack("<H", magic[:2])[0]}
+        # the same program as `marshal.dumps(compile(...))` writes it: the temporary has one reference, so from
+        # marshal format 3 on the top-level code object carries no FLAG_REF and reference 0 is whatever comes first
+        nf = marshal.dumps(compile(a["source"], a.get("filename", "prog.py"), "exec"))
+        return {"pyc": tohex(hdr + body), "codes": codes, "magic": struct.unpack("<H", magic[:2])[0], "payload_unflagged": tohex(nf)}
 
 
 OPS_ = {}
